@@ -434,7 +434,7 @@ func init() {
 		Units: func(t string) int { return tierN(t, 64, 3000) },
 		Run:   c19Unit,
 		Floors: func(t string) map[string]int {
-			return map[string]int{"register:valid-new": 300, "register:invalid": 300, "register:existing": 50, "register:unhashable": 10, "created-and-logged-in": 100, "created-awaiting-confirmation": 100, "policy-cases": 40000, "policy-accepts": 2000}
+			return map[string]int{"register:valid-new": 150, "register:invalid": 150, "register:existing": 25, "register:unhashable": 10, "created-and-logged-in": 50, "created-awaiting-confirmation": 40, "policy-cases": 40000, "policy-accepts": 2000}
 		},
 		Assumptions: []string{"the policy evaluator is exact on ASCII; requests with non-ASCII identifiers/passwords are executed but not judged (byte/rune distinction is out of scope)", "the user record's PutArbitrary follows the documented practice of keeping only declared profile fields; the oracle additionally inspects the whole map it was handed"},
 	})
